@@ -364,7 +364,7 @@ func (c07) streams(sc core.Scenario, r *core.R) {
 		if i == stalledIdx {
 			continue
 		}
-		if !core.WaitCh(gots[i].done, 4*core.Grace) {
+		if i := i; !core.WaitProgress(gots[i].done, 2*core.Grace, func() int64 { return int64(gots[i].n()) }) {
 			r.Violate("stream-not-closed", "stream %d/%d (%s, len %d, etype %d) did not complete: received %d, handler sent %d closed=%v; stalled sibling=%v; events: %s",
 				i, S, toks[i], sc.L[i], etype, gots[i].n(), env.Svc.Get(toks[i]).Sent, env.Svc.Get(toks[i]).Closed, stalledIdx >= 0, core.Log.Tail(30))
 		}
@@ -380,11 +380,11 @@ func (c07) streams(sc core.Scenario, r *core.R) {
 		// and the connection must keep serving calls and new subscriptions while all of it sits unread
 		st := toks[stalledIdx]
 		if etype == 0 || mode == svc.SPrefilled {
-			if !core.Eventually(3*core.Grace, func() bool { return int(env.Svc.Get(st).Sent) >= sc.L[stalledIdx] }) {
+			if !core.EventuallyProgress(3*core.Grace, func() int64 { return int64(env.Svc.Get(st).Sent) }, func() bool { return int(env.Svc.Get(st).Sent) >= sc.L[stalledIdx] }) {
 				r.Violate("stalled-subscriber-blocks", "the handler of the unread stream could hand over only %d of %d values: the connection stopped forwarding", env.Svc.Get(st).Sent, sc.L[stalledIdx])
 			}
 		} else {
-			core.Eventually(3*core.Grace, func() bool { return int(env.Svc.Get(st).Sent) >= sc.L[stalledIdx] })
+			core.EventuallyProgress(3*core.Grace, func() int64 { return int64(env.Svc.Get(st).Sent) }, func() bool { return int(env.Svc.Get(st).Sent) >= sc.L[stalledIdx] })
 		}
 		for j := 0; j < 4; j++ {
 			t := Tok("p")
@@ -406,7 +406,7 @@ func (c07) streams(sc core.Scenario, r *core.R) {
 			}
 		}
 		close(stallGate)
-		if !core.WaitCh(gots[stalledIdx].done, 4*core.Grace) {
+		if !core.WaitProgress(gots[stalledIdx].done, 2*core.Grace, func() int64 { return int64(gots[stalledIdx].n()) }) {
 			r.Violate("stream-not-closed", "previously stalled stream (len %d) did not complete after draining: received %d", sc.L[stalledIdx], gots[stalledIdx].n())
 		}
 	}
